@@ -478,6 +478,8 @@ def expr_str(n, depth=0):
     k = n.get("k")
     if _PLAIN[0] and k == "cast":
         return expr_str(n.child("e"), depth)
+    if _PLAIN[0] and k == "construct" and len([a for a in n.get("args", []) if a >= 0]) == 1:
+        return expr_str(n.fn.nodes[[a for a in n["args"] if a >= 0][0]], depth)
     c = lambda key: expr_str(n.child(key), depth + 1)
     if k == "ref":
         return n.get("n", "?")
@@ -508,6 +510,10 @@ def expr_str(n, depth=0):
             if n.get("ck") == "operator":
                 if n.get("op") == "[]":
                     return "%s[%s]" % (c("obj"), args)
+                if n.get("op") in ("*", "->") and not args:
+                    return "(*%s)" % c("obj") if n.get("op") == "*" else "%s->" % c("obj")
+                if n.get("op") in ("++", "--"):
+                    return "(%s%s)" % (c("obj"), n.get("op"))
                 return "%s %s (%s)" % (c("obj"), n.get("op"), args)
             if n.child("obj") is not None and n.child("obj").get("k") == "this":
                 return "%s(%s)" % (name, args)
